@@ -15,7 +15,7 @@ package geojson
 
 // RequireValid is under contract for the leaf geometries and the two multi-geometries that check it themselves; for the kinds in
 // rvOpen the statement needs a two-state frame argument over the object tree (see DESIGN): not claimed here, bounded suite only.
-//@ spec func rvOpen(o Object) bool { dyn(o) == typeid(*Feature) || dyn(o) == typeid(*Circle) || dyn(o) == typeid(*MultiPoint) || dyn(o) == typeid(*GeometryCollection) || dyn(o) == typeid(*FeatureCollection) }
+//@ spec func rvOpen(o Object) bool { dyn(o) == typeid(*Feature) || dyn(o) == typeid(*Circle) || dyn(o) == typeid(*GeometryCollection) || dyn(o) == typeid(*FeatureCollection) }
 
 //@ func Parse
 //@   props C05 C07 C08
@@ -144,17 +144,26 @@ package geojson
 // RequireValid for this parser is NOT under contract: it needs a two-state frame argument (the validity of the
 // children parsed earlier is unchanged by the later writes to the fresh receiver); covered by the bounded suite only.
 
+//@ lemma pointKid(o Object)
+//@   props C08
+//@   requires isPointK(o)
+//@   ensures KidInv(o) && !isCollObjK(o)
 //@ func parseJSONMultiPoint
 //@   props C05 C07 C08
 //@   arith order
-//@   only post.
 //@   dead cover.ret3
 //@   entry use rootGlobalsInit()
 //@   requires keys != nil && opts != nil
 //@   ensures Shape: okShape(result0, result1)
-//@   ensures Kind: result0 != nil ==> rvOpen(result0)
-// RequireValid for this parser is NOT under contract: it needs a two-state frame argument (the validity of the
-// children parsed earlier is unchanged by the later writes to the fresh receiver); covered by the bounded suite only.
+//@   ensures Kind: result0 != nil ==> dyn(result0) == typeid(*MultiPoint)
+//@   ensures RequireValid: result1 == nil && opts.RequireValid ==> oValidS(result0)
+//@   call 0 iterstop err != nil && (forall c *collection :: old($alloc)[c] ==> (c.children == old(c.children) && c.extra == old(c.extra) && c.pempty == old(c.pempty) && c.prect == old(c.prect) && c.tree == old(c.tree))) && (forall e *extra :: old($alloc)[e] ==> e.members == old(e.members))
+//@   call 0 iterinv Err: err == nil
+//@   call 0 iterinv Fresh: !old($alloc)[g] && g.collection.prect == zeroRect() && g.collection.tree == nil && g.collection.extra == nil
+//@   call 0 iterinv Kids: forall j int :: (0 <= j && j < len(g.collection.children)) ==> isPointK(collChild(g.collection, j))
+//@   call 0 iterinv FrameC: forall c *collection :: old($alloc)[c] ==> (c.children == old(c.children) && c.extra == old(c.extra) && c.pempty == old(c.pempty) && c.prect == old(c.prect) && c.tree == old(c.tree))
+//@   call 0 iterinv FrameE: forall e *extra :: old($alloc)[e] ==> e.members == old(e.members)
+//@   stmt multipoint.go:73 use forall j int :: pointKid(collChild(g.collection, j))
 
 //@ func parseJSONMultiLineString
 //@   props C05 C07 C08
